@@ -228,11 +228,15 @@ def run(tier):
     # ------------------------------------------------------------ (i) generated dictionaries
     nd = 48 if quick else 1200
     nw = 24 if quick else 40
-    kinds = (["normal"] * 5 + ["leaddigit", "digitonly", "badutf8", "escape", "notdict", "leaddigit", "normal"])
+    kinds = (["normal"] * 5 + ["leaddigit", "digitonly", "badutf8", "escape", "notdict", "leaddigit", "normal", "nodict"])
     gens = []
     for i in range(nd):
         kind = kinds[i % len(kinds)]
-        g = gen_dict(rng, kind)
+        g = gen_dict(rng, "normal" if kind == "nodict" else kind)
+        if kind == "nodict":
+            # the included file is empty: the table compiles and has no hyphenation automaton
+            g["bytes"] = b""
+            g["kind"] = kind
         g["id"] = "g%d" % i
         g["pats"] = H.parse_dict(g["bytes"])
         pats = g["pats"] or []
@@ -249,6 +253,8 @@ def run(tier):
             words.append(lead + pre + core + post)
         words.append([rng.choice(g["lowers"]) for _ in range(rng.choice([99, 100, 101, 150]))])
         words.append([])
+        # texts without any letter: the automaton is never entered, and the answer still has to be 0 without a dictionary
+        words += [[49, 50, 51, 52], [32, 32, 32], [49, 50, 32, 45, 32, 51, 52, 32, 46, 46, 46], [46]]
         g["words"] = words
         g["tbl"] = H.letter_table(g["lowers"], g["upper_of"], [45], [46, 39], g["id"] + ".dic")
         gens.append(g)
@@ -597,7 +603,8 @@ def run_model_parallel(lines, group, timeout=1800):
 def braille_check(v, rng, exe, gens, dist, corr_bad, quick, tw):
     """mode 1: format clause on shipped tables that carry a dictionary; model correspondence through the
     implementation's own back-translation result on generated tables and a few shipped calls"""
-    shipped = [t for t in ("da-dk-g26.ctb", "da-dk-g28.ctb", "de-g1.ctb", "de-g2.ctb", "de-g0.utb")
+    # (the last two carry no dictionary: every call has to return 0, also for braille without a letter in it)
+    shipped = [t for t in ("da-dk-g26.ctb", "da-dk-g28.ctb", "de-g1.ctb", "de-g2.ctb", "de-g0.utb", "en-us-g1.ctb", "en-us-comp8.ctb")
                if os.path.exists(os.path.join(corpus.TABLES, t))]
     cases = []
     nb = 25 if quick else 200
@@ -606,6 +613,8 @@ def braille_check(v, rng, exe, gens, dist, corr_bad, quick, tw):
         for _ in range(nb):
             w = rng.choice(tw)[:40]
             ops.append(("text", w))
+        for w in ("1234", "   ", "12 - 34 ...", "#", "a"):
+            ops.append(("text", [ord(ch) for ch in w]))
         # forward-translate to get braille, then hyphenate the braille
         script = []
         for kind, w in ops:
